@@ -761,7 +761,7 @@ func genCorpus(t *rapid.T) Case {
 }
 
 func TestC06Corpus(t *testing.T) {
-	evid.Prop(t, "corpus", evid.R.N(6000, 40000), genCorpus, oracle)
+	evid.Prop(t, "corpus", evid.R.N(4000, 40000), genCorpus, oracle)
 }
 
 // sweep: systematic hostile renamings of every translatable shipped query.
